@@ -21,13 +21,17 @@ TraceVal == [e \in {TraceElem[a] : a \in DOMAIN TraceElem} \cup {"H", "X"} |-> 0
 TraceQ == {}
 DevNone == {}
 
-CoordOK(s, o) == s = AnyC \/ (s.base = o.base /\ s.sh = o.sh)
+(* written as values (IF .. THEN TRUE ELSE FALSE): a disjunction or a quantifier that is a conjunct of an action makes   *)
+(* TLC branch / recurse per element while it enumerates successor states (2^k branches for k library-placed atoms)      *)
+CoordOK(s, o) == IF s = AnyC THEN TRUE ELSE (IF s.base = o.base /\ s.sh = o.sh THEN TRUE ELSE FALSE)
+AllCoordsOK(o) == IF \A i \in 1..Len(atoms') : CoordOK(coord'[atoms'[i]], o.coords[i]) THEN TRUE ELSE FALSE
+AllChgsOK(o) == IF \A i \in 1..Len(atoms') : o.chgs[i] = chg'[atoms'[i]] THEN TRUE ELSE FALSE
 (* the observation after the call: atom order, identity-keyed coordinate / charge tokens, bond set, shapes, parents *)
 Observed ==
   LET o == Ev.obs IN
   /\ o.atoms = atoms'
-  /\ Len(o.coords) = Len(atoms') /\ \A i \in 1..Len(atoms') : CoordOK(coord'[atoms'[i]], o.coords[i])
-  /\ (HasCharges => (Len(o.chgs) = Len(atoms') /\ \A i \in 1..Len(atoms') : o.chgs[i] = chg'[atoms'[i]]))
+  /\ Len(o.coords) = Len(atoms') /\ AllCoordsOK(o) = TRUE
+  /\ (HasCharges => (Len(o.chgs) = Len(atoms') /\ AllChgsOK(o) = TRUE))
   /\ {{b[1], b[2]} : b \in ToSet(o.bonds)} = bonds'
   /\ o.aligned /\ o.parents
   /\ last'.out = Ev.out
@@ -38,22 +42,24 @@ TLoad == /\ Ev.ev = "load" /\ atoms = <<>>
          /\ bonds' = {{b[1], b[2]} : b \in ToSet(Ev.bonds)}
          /\ coord' = [a \in AllId |-> IF a \in ToSet(Ev.atoms) THEN Given(a) ELSE NoneC]
          /\ chg' = [a \in AllId |-> IF a \in ToSet(Ev.atoms) THEN "q" ELSE None]
-         /\ UNCHANGED <<nfresh, nap>> /\ last' = [act |-> "load", out |-> "ok"]
+         /\ UNCHANGED <<nfresh, nap, view>> /\ last' = [act |-> "load", out |-> "ok"]
          /\ Observed
 (* add_implicit_hydrogens on a real molecule: how many hydrogens is C16's business; here only: hydrogens are appended, *)
 (* each bonded once to a live centre, everything else unchanged                                                      *)
+FreshSet(n0, n) == {Fresh[n0 + k] : k \in 1..n}
+HBonds(cs, n0) == {{cs[k], Fresh[n0 + k]} : k \in 1..Len(cs)}
+CentresLive(cs) == IF \A k \in 1..Len(cs) : cs[k] \in Live THEN TRUE ELSE FALSE      \* evaluated as one value
 TAddH == /\ Ev.ev = "add_h"
-         /\ LET cs == Ev.centres
-                fs == [k \in 1..Len(cs) |-> Fresh[nfresh + k]]
-            IN /\ nfresh + Len(cs) <= Len(Fresh) /\ \A k \in 1..Len(cs) : cs[k] \in Live
-               /\ atoms' = atoms \o fs
-               /\ bonds' = bonds \cup {{cs[k], fs[k]} : k \in 1..Len(cs)}
-               /\ coord' = [a \in AllId |-> IF \E k \in 1..Len(cs) : fs[k] = a THEN AnyC ELSE coord[a]]
-               /\ chg' = [a \in AllId |-> IF \E k \in 1..Len(cs) : fs[k] = a THEN "zero" ELSE chg[a]]
-               /\ nfresh' = nfresh + Len(cs) /\ UNCHANGED nap
+         /\ nfresh + Len(Ev.centres) <= Len(Fresh)
+         /\ CentresLive(Ev.centres) = TRUE
+         /\ atoms' = atoms \o [k \in 1..Len(Ev.centres) |-> Fresh[nfresh + k]]
+         /\ bonds' = bonds \cup HBonds(Ev.centres, nfresh)
+         /\ coord' = [a \in AllId |-> IF a \in FreshSet(nfresh, Len(Ev.centres)) THEN AnyC ELSE coord[a]]
+         /\ chg' = [a \in AllId |-> IF a \in FreshSet(nfresh, Len(Ev.centres)) THEN "zero" ELSE chg[a]]
+         /\ nfresh' = nfresh + Len(Ev.centres) /\ UNCHANGED <<nap, view>>
          /\ last' = [act |-> "add_h", out |-> "ok"]
          /\ Observed
-TStep ==
+TEdit ==
   \/ Ev.ev = "add_atom" /\ AddAtom(Ev.a, Ev.q) /\ Observed
   \/ Ev.ev = "append_atom" /\ AppendAtom(Ev.a) /\ Observed
   \/ Ev.ev = "connect" /\ Connect(Ev.i + 1, Ev.j + 1) /\ Observed
@@ -67,8 +73,11 @@ TStep ==
   \/ Ev.ev = "sub_translate" /\ SubTranslate(ToSet(Ev.S)) /\ Observed
   \/ Ev.ev = "clone" /\ Clone /\ Observed
   \/ TLoad \/ TAddH
+TStep == \/ TEdit
+         \/ (Ev.ev = "make_view" /\ MakeView(ToSet(Ev.S)) /\ Observed)
+         \/ (Ev.ev = "view_translate" /\ ViewTranslate /\ Observed)
 Step == /\ ti <= NT /\ l <= Len(Tr) /\ TStep /\ l' = l + 1 /\ ti' = ti
-Reset == /\ atoms' = <<>> /\ bonds' = {} /\ nfresh' = 0 /\ nap' = 0
+Reset == /\ atoms' = <<>> /\ bonds' = {} /\ nfresh' = 0 /\ nap' = 0 /\ view' = {}
          /\ coord' = [a \in AllId |-> NoneC] /\ chg' = [a \in AllId |-> None] /\ last' = [act |-> "init", out |-> "ok"]
 NextTrace == ti' = ti + 1 /\ l' = 1 /\ Reset
 Finish == /\ ti <= NT /\ l = Len(Tr) + 1 /\ PrintT(<<"VERDICT", Traces[ti].tid, "ACCEPT">>) /\ NextTrace
